@@ -14,7 +14,23 @@ SS = lambda m: enum_code('ScheduleStatus', m)
 REG.contract('Scheduler._add_event', world=SW, params={'observation': 'Observation', 'resource': 'str', 'event': 'str'},
              ensures=_add_event_ens('scheduler'), ghost=_add_event_ghost('scheduler'), modifies=['self.events', 'ghost:unlogged_scheduler'],
              props=['C13'])
-REG.invariants['Scheduler'] = events_inv('scheduler')
+
+
+def admitted(sv):
+    """ghost: ingest-machine demand of the observations admitted by check_ingest_capacity whose ingest (allocate_ingest) has not
+    returned yet.  + demand where an admission is granted, - demand where allocate_ingest returns; Telescope.run's body
+    obligations say that every granted admission spawns its allocate_ingest in the same iteration."""
+    if 'admitted_ingest' not in sv._s.ghost:
+        sv._s.ghost['admitted_ingest'] = z3.Real('ghost0_admitted_ingest')
+    return sv._s.ghost['admitted_ingest']
+
+
+def scheduler_inv(v, sv):
+    return events_inv('scheduler')(v, sv) + [
+        ('C08-promise-counter-is-the-demand-of-the-admitted-ingests-in-progress', v.provision_ingest.t == admitted(sv))]
+
+
+REG.invariants['Scheduler'] = scheduler_inv
 
 REG.contract('Scheduler.is_idle', world=SW,
              ensures=lambda c: [('C19-idle-iff-no-observation-queued', c.result.t == (c.o.self.observation_queue.n == 0))],
@@ -132,7 +148,15 @@ def _sic_ens(c):
     clu = z3.And(d <= o.max_ingest.t, z3.ToReal(k.av.n) >= d, z3.ToReal(k.ing.n) + d <= o.max_ingest.t,
                  s.provision_ingest.t + d <= o.max_ingest.t)
     return [('C08-admits-only-when-buffers-and-cluster-have-room', c.result.t == z3.And(buf, clu)),
-            ('C08-promised-ingest-machines-are-counted', n.self.provision_ingest.t == s.provision_ingest.t + z3.If(clu, d, 0))]
+            ('C08-promise-made-exactly-when-admitted', n.self.provision_ingest.t == s.provision_ingest.t + z3.If(c.result.t, d, 0)),
+            ('admitted-demand-ghost-follows-the-decision', admitted(n) == admitted(o) + z3.If(c.result.t, d, 0))]
+
+
+def _sic_ghost(eng, vals):
+    # the ghost follows the DECISION (the value returned), not the code's counter
+    sv = SV(eng, eng.st, vals)
+    g = admitted(sv)
+    eng.st.ghost['admitted_ingest'] = g + z3.If(V(eng, eng.st, eng.ret_value).t, _demand(None, sv), 0)
 
 
 REG.contract('Scheduler.check_ingest_capacity', world=SW,
@@ -140,7 +164,7 @@ REG.contract('Scheduler.check_ingest_capacity', world=SW,
              requires=lambda c: [('observation-in-buffer-0', obs_ok(c.o, c.o.observation.t)),
                                  ('pipeline-known', z3.And(z3.Select(c.o.pipelines.keys, c.o.observation.name.t),
                                                            z3.Select(c.o.pipelines.vals, c.o.observation.name.t) > 0))],
-             ensures=_sic_ens, result='bool', modifies=['self.provision_ingest'],
+             ensures=_sic_ens, ghost=_sic_ghost, result='bool', modifies=['self.provision_ingest', 'ghost:admitted_ingest'],
              raises={'RuntimeError': dict(when=lambda c: z3.Or(c.o.observation.duration.t < 1,
                                                                hot(c.o.self.buffer).total_capacity.t <= c.o.observation.ingest_data_rate.t * c.o.observation.duration.t))},
              props=['C08'])
@@ -171,7 +195,15 @@ def _ai_step(c):
     if to == 'return':
         d = _ai_demand(c, o)
         out.append(('C08-promise-released-at-the-end', n.self.provision_ingest.t == o.self.provision_ingest.t - d))
+        out.append(('admitted-demand-ghost-released-at-the-end', admitted(n) == admitted(o) - d))
+    else:
+        out.append(('admitted-demand-ghost-kept-while-ingesting', admitted(n) == admitted(o)))
     return out
+
+
+def _ai_ghost(eng, vals):
+    sv = SV(eng, eng.st, vals)
+    eng.st.ghost['admitted_ingest'] = admitted(sv) - _ai_demand(None, sv)
 
 
 def _ai_demand(c, sv):
@@ -190,8 +222,8 @@ REG.contract('Scheduler.allocate_ingest', world=SW,
                                    ('demand-whole', z3.IsInt(c.n['pipeline_demand'].t)), ('lasts-at-least-one-step', c.n.observation.duration.t >= 1),
                                    ('demand-is-the-pipeline-demand', c.n['pipeline_demand'].t == _ai_demand(c, c.n)),
                                    ('pipeline-known', z3.Select(c.n.pipelines.keys, c.n.observation.name.t))]},
-             step=_ai_step,
-             modifies=['self.provision_ingest', 'self.cluster._ingest.completed', 'self.cluster._ingest.status',
+             step=_ai_step, ghost=_ai_ghost,
+             modifies=['self.provision_ingest', 'ghost:admitted_ingest', 'self.cluster._ingest.completed', 'self.cluster._ingest.status',
                        'heap:Observation.ast', 'heap:Observation.status'],
              props=['C08', 'C13'])
 
